@@ -206,7 +206,12 @@ def race_stage(work, tier, seed):
     for blk in r.stderr.split("WARNING: DATA RACE")[1:]:
         frames = [re.sub(r"\(0x.*|\(\)", "", ln.strip()) for ln in blk.splitlines() if "aukilabs/hagall/" in ln and "aukilabs/hagall-common" not in ln
                   and not ln.strip().startswith("/")]
-        frames = [f for f in frames if "verif" not in f]
+        # an access made by the harness itself (overlay accessors Verif*, verif_export.go, the verifrt shim) racing with
+        # the code is an artefact of observing, not a race of hagall: the whole report is dropped
+        access_stacks = blk.split("\nGoroutine ")[0]
+        if re.search(r"\.Verif[A-Z]\w*\(|verif_export\.go", access_stacks):
+            continue
+        frames = [f for f in frames if "verif" not in f.lower()]
         if frames:
             reports.append(tuple(frames[:2]))
     if r.returncode != 0 and not reports:
